@@ -95,6 +95,15 @@ def run(ctx):
             continue
         beads_samples, mef_fxns, mef_outputs = ob.value
         E.add_beads_stats(btab, beads_samples, mef_outputs)
+        # the hand composition runs BEFORE the batch in every other experiment and AFTER it in the others, so that state
+        # leaking between successive library calls (caches, rewritten ranges) cannot hide behind a fixed order
+        hands = {}
+        hand_first = cid[1] % 2 == 1
+        if hand_first:
+            for sid, row in stab.iterrows():
+                with warnings.catch_warnings():
+                    warnings.simplefilter('ignore')
+                    hands[sid] = core.attempt(hand, F, base, row, itab.loc[row['Instrument ID']], mef_fxns)
         with warnings.catch_warnings():
             warnings.simplefilter('ignore')
             o = core.attempt(E.process_samples_table, stab, itab, mef_transform_fxns=mef_fxns, beads_table=btab,
@@ -112,9 +121,12 @@ def run(ctx):
             if isinstance(got, Exception):
                 ctx.check(False, 'well-formed-row-reported-as-error', cid, error=str(got), **desc)
                 continue
-            with warnings.catch_warnings():
-                warnings.simplefilter('ignore')
-                h = core.attempt(hand, F, base, row, itab.loc[row['Instrument ID']], mef_fxns)
+            if sid in hands:
+                h = hands[sid]
+            else:
+                with warnings.catch_warnings():
+                    warnings.simplefilter('ignore')
+                    h = core.attempt(hand, F, base, row, itab.loc[row['Instrument ID']], mef_fxns)
             if h.raised:
                 ctx.note('hand composition raised: ' + core.exc_str(h.exc)[:100])
                 ctx.counters['oracle_errors'] += 1
